@@ -62,6 +62,9 @@ DocSpace == [plK1 : BOOLEAN, plK2 : BOOLEAN,                 \* path-level param
              qcontent : BOOLEAN,                             \* Z's own parameter is described by "content" instead of "schema" (3.x)
              secgen : BOOLEAN,                               \* FALSE: the user switched security parameters off in the configuration
              oNoId : BOOLEAN,                                \* O has no operationId
+             numkeys : BOOLEAN,                              \* key spelling: the JSON body schema ALSO has properties whose names a YAML 1.1
+                                                             \*   reader takes for floats ("1.0", "1.10", "1e3", ".5") or nulls ("null", "~") when
+                                                             \*   written plain; as mapping keys they are text, exactly as in the JSON rendering
              mbroken : BOOLEAN,                              \* M uses a definition from the shared file whose own NESTED $ref is dangling
                                                              \*   (M must be reported); O and Z then use the root-local pointer "Lim", which
                                                              \*   the shared file defines too, with other content: they get the ROOT's (tag 12)
@@ -70,7 +73,7 @@ DocSpace == [plK1 : BOOLEAN, plK2 : BOOLEAN,                 \* path-level param
 Base == [plK1 |-> TRUE, plK2 |-> FALSE, olK1 |-> TRUE, olK2 |-> FALSE, olK3 |-> FALSE, orient |-> "pT",
          pdepth |-> 1, odepth |-> 0, pathRef |-> FALSE, body |-> "two", rec |-> FALSE, cross |-> "none", zpath |-> "/z", collide |-> FALSE,
          ver |-> "3.0", qcontent |-> FALSE, secgen |-> TRUE, oNoId |-> FALSE, mbroken |-> FALSE,
-         sec |-> "hdr", bad |-> "none"]
+         numkeys |-> FALSE, sec |-> "hdr", bad |-> "none"]
 B2N(b) == IF b THEN 1 ELSE 0
 Weight(d) == B2N(d.plK1 # Base.plK1) + B2N(d.plK2 # Base.plK2) + B2N(d.olK1 # Base.olK1) + B2N(d.olK2 # Base.olK2)
            + B2N(d.olK3 # Base.olK3) + B2N(d.orient # Base.orient) + B2N(d.pdepth # Base.pdepth)
@@ -79,7 +82,7 @@ Weight(d) == B2N(d.plK1 # Base.plK1) + B2N(d.plK2 # Base.plK2) + B2N(d.olK1 # Ba
            + B2N(d.rec # Base.rec) + B2N(d.sec # Base.sec) + B2N(d.bad # Base.bad) + B2N(d.cross # Base.cross)
            + B2N(d.zpath # Base.zpath) + B2N(d.collide # Base.collide) + B2N(d.ver # Base.ver)
            + B2N(d.qcontent # Base.qcontent) + B2N(d.secgen # Base.secgen) + B2N(d.oNoId # Base.oNoId)
-           + B2N(d.mbroken # Base.mbroken)
+           + B2N(d.mbroken # Base.mbroken) + B2N(d.numkeys # Base.numkeys)
 WF(d) == /\ (d.rec => d.body # "none")
          /\ ((~d.olK1 /\ ~d.olK2 /\ ~d.olK3 /\ d.cross = "none") => d.odepth = 0)
          /\ (d.collide => d.pathRef)                  \* two documents are needed for two definitions under one pointer text
@@ -87,6 +90,7 @@ WF(d) == /\ (d.rec => d.body # "none")
          /\ (d.qcontent => d.bad = "none")
          /\ (d.rec => d.body # "form")
          /\ (d.mbroken => ~d.pathRef /\ ~d.collide)
+         /\ (d.numkeys => d.body \notin {"none", "form"})     \* the oddly spelled names are properties of the JSON body schema
 (* all documents within MaxDev single-feature changes of Base (built by changing one feature at a time) *)
 Variants(d) == {[d EXCEPT !.plK1 = b] : b \in BOOLEAN} \cup {[d EXCEPT !.plK2 = b] : b \in BOOLEAN}
           \cup {[d EXCEPT !.olK1 = b] : b \in BOOLEAN} \cup {[d EXCEPT !.olK2 = b] : b \in BOOLEAN}
@@ -97,6 +101,7 @@ Variants(d) == {[d EXCEPT !.plK1 = b] : b \in BOOLEAN} \cup {[d EXCEPT !.plK2 = 
           \cup {[d EXCEPT !.bad = x] : x \in Bads} \cup {[d EXCEPT !.cross = x] : x \in {"none", "fwd", "mirror"}}
           \cup {[d EXCEPT !.ver = x] : x \in Vers} \cup {[d EXCEPT !.qcontent = b] : b \in BOOLEAN}
           \cup {[d EXCEPT !.secgen = b] : b \in BOOLEAN} \cup {[d EXCEPT !.mbroken = b] : b \in BOOLEAN} \cup {[d EXCEPT !.oNoId = b] : b \in BOOLEAN}
+          \cup {[d EXCEPT !.numkeys = b] : b \in BOOLEAN}
           \cup {[d EXCEPT !.zpath = x] : x \in ZPaths} \cup {[d EXCEPT !.collide = TRUE, !.pathRef = TRUE], [d EXCEPT !.collide = FALSE]}
 RECURSIVE Within(_, _)
 Within(S, n) == IF n = 0 THEN S ELSE Within(S \cup UNION {Variants(d) : d \in S}, n - 1)
@@ -147,7 +152,11 @@ BodiesOf(d, t) == IF t # "M" THEN {}
                                      \cup (IF d.ver = "2.0" THEN {} ELSE {Alt("multipart/form-data", TRUE, 9)})
 (* mapping keys and date-like scalars are text, whatever the serialisation *)
 RespKeys(t) == IF t = "M" THEN {"200", "404", "default"} ELSE {"200"}
-PropNames == {"no", "on", "v"}
+(* YAML 1.1 would resolve these plain scalars to bool / float / null; a mapping KEY is text in JSON, so the same document written
+   as YAML must yield the same names - and distinct spellings ("1.0" / "1.10", "null" / "~") stay distinct properties *)
+FloatLike == {"1.0", "1.10", "1e3", ".5"}
+NullLike == {"null", "~"}
+PropNames(d) == {"no", "on", "v"} \cup (IF d.numkeys THEN FloatLike \cup NullLike ELSE {})
 DateScalar == "2020-01-01"
 Malformed(d, t) == (t = "Z" /\ d.bad # "none") \/ (t = "M" /\ d.mbroken)
 HasJsonBody(d, t) == t = "M" /\ d.body \notin {"none", "form"}
@@ -165,7 +174,7 @@ Outcome(d, t) ==
           params |-> {p \in Declared(d, t) \cup SecParams(d, t) : [name |-> p.name, loc |-> p.loc] \notin Clash(d, t)},
           free |-> Clash(d, t),
           bodies |-> BodiesOf(d, t), resp |-> RespKeys(t),
-          props |-> IF HasJsonBody(d, t) THEN PropNames ELSE {},        \* property names of the JSON body schema
+          props |-> IF HasJsonBody(d, t) THEN PropNames(d) ELSE {},        \* property names of the JSON body schema
           date |-> IF HasJsonBody(d, t) THEN DateScalar ELSE ""]        \* its date-like default value
 (* a JSON reference "#/paths/<path>/<method>" into a path item that is itself a $ref: the standard does not say whether
    the pointer continues through the reference -> such an access is made but not judged *)
@@ -269,6 +278,7 @@ DocId(d) == 1 * B2N(d.plK1)
           + 99532800 * B2N(d.secgen)
           + 199065600 * B2N(d.oNoId)
           + 398131200 * B2N(d.mbroken)
+          + 796262400 * B2N(d.numkeys)          \* (largest id 1592524799 < 2^31)
 Export == IF hist = <<>> THEN TRUE
           ELSE IF First
           THEN PrintT(<<"CASE", ToJson([id |-> DocId(doc), d |-> doc, w |-> Weight(doc), ser |-> ser, lay |-> lay, h |-> hist,
